@@ -62,21 +62,21 @@ func c01Init() {
 	pnp := &np
 	sl := []int{1, 2}
 	c01Table = map[string]func() c01Val{
-		"nilU":    ent[interface{}](nil, "alt"),
-		"boolT":   ent(true, false), "boolF": ent(false, true), "int0": ent(0, 9), "int5": ent(5, 9),
-		"int8v":   ent(int8(5), int8(9)), "int16v": ent(int16(5), int16(9)), "int32v": ent(int32(5), int32(9)), "int64v": ent(int64(5), int64(9)),
-		"uintv":   ent(uint(5), uint(9)), "uint8v": ent(uint8(5), uint8(9)), "uint16v": ent(uint16(5), uint16(9)), "uint32v": ent(uint32(5), uint32(9)),
+		"nilU":  ent[interface{}](nil, "alt"),
+		"boolT": ent(true, false), "boolF": ent(false, true), "int0": ent(0, 9), "int5": ent(5, 9),
+		"int8v": ent(int8(5), int8(9)), "int16v": ent(int16(5), int16(9)), "int32v": ent(int32(5), int32(9)), "int64v": ent(int64(5), int64(9)),
+		"uintv": ent(uint(5), uint(9)), "uint8v": ent(uint8(5), uint8(9)), "uint16v": ent(uint16(5), uint16(9)), "uint32v": ent(uint32(5), uint32(9)),
 		"uint64v": ent(uint64(5), uint64(9)), "uintptrv": ent(uintptr(5), uintptr(9)), "f32": ent(float32(1.5), float32(9)), "f64": ent(1.5, 9.0),
-		"str":     ent("hi", "alt"), "strEmpty": ent("", "alt"), "strNilText": ent("<nil>", "alt"), "structV": ent(c01S{1}, c01S{9}),
-		"sliceV":  ent([]int{1}, []int{9}), "sliceNil": ent([]int(nil), []int{9}), "mapV": ent(map[string]int{"a": 1}, map[string]int{"z": 9}),
-		"mapNil":  ent(map[string]int(nil), map[string]int{"z": 9}), "funcV": ent(func() {}, func() {}), "funcNil": ent((func())(nil), func() {}),
-		"chanV":   ent(make(chan int), make(chan int)), "chanNil": ent((chan int)(nil), make(chan int)), "arrayV": ent([2]int{1, 2}, [2]int{9, 9}),
-		"complexV": ent(complex(1, 2), complex(9, 9)),
+		"str": ent("hi", "alt"), "strEmpty": ent("", "alt"), "strNilText": ent("<nil>", "alt"), "structV": ent(c01S{1}, c01S{9}),
+		"sliceV": ent([]int{1}, []int{9}), "sliceNil": ent([]int(nil), []int{9}), "mapV": ent(map[string]int{"a": 1}, map[string]int{"z": 9}),
+		"mapNil": ent(map[string]int(nil), map[string]int{"z": 9}), "funcV": ent(func() {}, func() {}), "funcNil": ent((func())(nil), func() {}),
+		"chanV": ent(make(chan int), make(chan int)), "chanNil": ent((chan int)(nil), make(chan int)), "arrayV": ent([2]int{1, 2}, [2]int{9, 9}),
+		"complexV":  ent(complex(1, 2), complex(9, 9)),
 		"nilPtrInt": ent(np, py), "nilPtrStruct": ent(nps, &c01S{9}), "nilPtrPtr": ent(npp, &py),
-		"ptrInt":    ent(px, py), "ptrStruct": ent(&c01S{1}, &c01S{9}), "ptrPtr": ent(&px, &py), "ptrToNilPtr": ent(pnp, &py), "ptrSlice": ent(&sl, &[]int{9}),
-		"maybeInt":   ent[fpgo.MaybeDef[interface{}]](fpgo.Maybe.Just(5), fpgo.Maybe.Just(9)),
-		"maybeMaybe": ent[fpgo.MaybeDef[interface{}]](fpgo.Maybe.Just(fpgo.Maybe.Just(5)), fpgo.Maybe.Just(9)),
-		"noneV":      ent[fpgo.MaybeDef[interface{}]](fpgo.None, fpgo.Maybe.Just(9)),
+		"ptrInt": ent(px, py), "ptrStruct": ent(&c01S{1}, &c01S{9}), "ptrPtr": ent(&px, &py), "ptrToNilPtr": ent(pnp, &py), "ptrSlice": ent(&sl, &[]int{9}),
+		"maybeInt":    ent[fpgo.MaybeDef[interface{}]](fpgo.Maybe.Just(5), fpgo.Maybe.Just(9)),
+		"maybeMaybe":  ent[fpgo.MaybeDef[interface{}]](fpgo.Maybe.Just(fpgo.Maybe.Just(5)), fpgo.Maybe.Just(9)),
+		"noneV":       ent[fpgo.MaybeDef[interface{}]](fpgo.None, fpgo.Maybe.Just(9)),
 		"maybeNilPtr": ent[fpgo.MaybeDef[interface{}]](fpgo.JustGenerics[interface{}](np), fpgo.Maybe.Just(9)),
 		"maybeGenInt": ent[fpgo.MaybeDef[int]](fpgo.JustGenerics(5), fpgo.JustGenerics(9)),
 	}
